@@ -59,10 +59,15 @@ def body_box(E, n, which):
     C, M, ghost, params = mk_controller(E, n, 1, n + 1, n + 1, with_h=True, with_save=False, objfun=None)
     w = E.vec('w', n)
     seen = {}
+    AH, AP = ('extra-argument-of-h',), ('extra-argument-of-prox',)
+    C.argsh, M.argsh, C.argsprox = AH, AH, AP
 
     def sfista(xopt, g, H, projections, delta, h, L_h, prox_uh, **kw):
         seen['xopt'] = xopt.copy()
         seen['P'] = list(projections)
+        seen['argsh'] = kw.get('argsh')
+        seen['argsprox'] = kw.get('argsprox')
+        seen['prox'] = prox_uh
         return E.vec('dS', n), E.vec('gS', n), E.real('crv')
     E.patch('ctrsbox_sfista', sfista)
     E.hooks(la=lambda name, args, kw: E.real('normH', lo=0) if name == 'norm2' else NotImplemented)   # spectral norm of H: LAPACK-level for n >= 2
@@ -71,6 +76,8 @@ def body_box(E, n, which):
     else:
         C.evaluate_criticality_measure(params)
     E.prove('P' in seen and len(seen['P']) == 1, 'box:one-projector-for-bound-constraints')
+    E.prove(seen.get('argsh') is AH and seen.get('argsprox') is AP and seen.get('prox') is C.prox_uh,
+            'box:extra-arguments-of-h-and-prox-forwarded-unchanged[%s]' % which)
     if 'P' not in seen:
         return
     xl, xu = M.xbase + M.sl, M.xbase + M.su
@@ -104,7 +111,7 @@ def harnesses(tier, seed):
                               assumptions=["ctrsbox_sfista stubbed: captures its arguments"], expect=['box:projector-is-the-true-box-in-those-coordinates[%s]' % which], nproc=1))
     hs += [h for h in c13.harnesses(tier, seed) if h.name.startswith('regularised-step')]
     from .c03 import shared_c02_harnesses
-    hs += [h for h in shared_c02_harnesses(tier, ('evalobj',)) if 'h=1' in h.name]
+    hs += [h for h in shared_c02_harnesses(tier, ('evalobj', 'x0')) if 'h=1' in h.name]
     for h in hs:
         if h.name.startswith('regularised-step'):
             h.home = 'C06'
